@@ -934,6 +934,7 @@ pub fn run(rep: &mut Report) {
 		("raw identifier: type names", "programs_raw_ident_type_names"),
 		("raw identifier: field names", "programs_raw_ident_field_names"),
 		("skip: unit-only enum", "programs_unit_enum_with_skipped_variants"),
+		("shared unnamed node:", "programs_shared_unnamed_node"),
 	] {
 		rep.cover.count(counter, l.families.iter().filter(|f| f.origin.contains(marker)).count() as u64);
 	}
@@ -956,7 +957,7 @@ pub fn run(rep: &mut Report) {
 	rep.assumptions.push("the description of a value emitted by the generated Dom impls is the generator's own statement of the serde data model of the type (it shares no code with the derive crates)".into());
 	rep.assumptions.push("generic instantiations whose arguments share a schema node by the derive's documented lookup equivalence (u16 = i32, Box<T> = T, BTreeMap = HashMap) are counted as one instantiation".into());
 	// vacuity guards
-	for k in ["programs_inferred_uuid_from_type_name", "programs_logical_type_substitutes_field_type", "programs_const_generic", "programs_generic_newtype_struct", "programs_skipped_members", "programs_generic_owning_fixed", "programs_namespace_attribute", "programs_generic_enum_owning_nodes_once", "programs_generic_enum_owning_nodes_twice", "programs_generic_enum_t_only", "programs_raw_ident_unit_enum", "programs_raw_ident_union_variants", "programs_raw_ident_type_names", "programs_raw_ident_field_names", "programs_unit_enum_with_skipped_variants", "families_with_union_enum", "families_with_generic", "families_with_newtype_struct", "families_recursive", "schemas_valid", "values_round_tripped", "denotation_checked", "values_through_union_enum", "values_with_some"] {
+	for k in ["programs_inferred_uuid_from_type_name", "programs_logical_type_substitutes_field_type", "programs_const_generic", "programs_generic_newtype_struct", "programs_skipped_members", "programs_generic_owning_fixed", "programs_namespace_attribute", "programs_generic_enum_owning_nodes_once", "programs_generic_enum_owning_nodes_twice", "programs_generic_enum_t_only", "programs_raw_ident_unit_enum", "programs_raw_ident_union_variants", "programs_raw_ident_type_names", "programs_raw_ident_field_names", "programs_unit_enum_with_skipped_variants", "programs_shared_unnamed_node", "families_with_union_enum", "families_with_generic", "families_with_newtype_struct", "families_recursive", "schemas_valid", "values_round_tripped", "denotation_checked", "values_through_union_enum", "values_with_some"] {
 		if rep.cover.counters.get(k).copied().unwrap_or(0) == 0 {
 			machinery(&format!("vacuity guard: counter {k} is 0 — a behaviour the check relies on was never exercised"));
 		}
